@@ -39,7 +39,10 @@ type concOut struct {
 	Err  string
 }
 
-type linFS struct{ fs *reffs.FS; probe *fsx.Probe }
+type linFS struct {
+	fs    *reffs.FS
+	probe *fsx.Probe
+}
 
 func (m linFS) Clone() lin.Model { return linFS{m.fs.Clone(), m.probe} }
 func (m linFS) Step(in, out interface{}) bool {
